@@ -145,6 +145,14 @@ func genTSSCase(rt *rapid.T, p tssProfile) tssCase {
 			}
 			continue
 		}
+		if gen.Chance(rt, "skipids", 1, 40) {
+			// other users of x/tss (tunnels, oracle results, transitions) advance the signing counter: jump it so that
+			// ids of signings in flight differ by multiples of 256 / cross 2^16 (key widths, id arithmetic)
+			c.Ops = append(c.Ops, tssOp{K: "req", M: 0, N: 3, Variant: "enough"}, tssOp{K: "end", N: 1},
+				tssOp{K: "skipids", N: gen.OneOf(rt, "skipn", 255, 255, 254, 256, 65535-256, 1<<32)},
+				tssOp{K: "req", M: 0, N: 4, Variant: "enough"}, tssOp{K: "end", N: 1}, tssOp{K: "sigall", S: 0, Mask: 0xff}, tssOp{K: "sigall", S: 1, Mask: 0xff}, tssOp{K: "end", N: 1})
+			continue
+		}
 		if p.internal && gen.Chance(rt, "internal", 1, 15) {
 			if gen.Chance(rt, "igov", 1, 3) {
 				// the same message executed from a governance proposal (sender = the module authority)
@@ -262,6 +270,7 @@ type tssWorld struct {
 	c11Checked    int
 	c11Oracle     int
 	internalTried int
+	idsSkipped    bool // the tss signing counter was advanced as other modules' signings would
 	tooFewSeen    bool // a request was refused because fewer than threshold members were eligible
 	internalGov   int  // ... of which executed from a governance proposal
 	c09Checked    int
@@ -643,6 +652,14 @@ func (w *tssWorld) run() {
 					block = append(block, &builtTx{op: o2, sender: m.Addr.String(), bz: w.ch.SignTx(m, bandtsstypes.NewMsgActivate(m.Addr.String(), w.grp.ID))})
 				}
 			}
+		case "skipids":
+			if sim.Replicas > 1 || len(block) > 0 {
+				continue // a direct store write would make the replicas incomparable; only between blocks
+			}
+			wctx := w.ch.WriteCtx()
+			w.ch.App.TSSKeeper.SetSigningCount(wctx, w.ch.App.TSSKeeper.GetSigningCount(wctx)+uint64(op.N))
+			w.sigCount += uint64(op.N)
+			w.idsSkipped = true
 		case "reset":
 			m := w.members[op.M%len(w.members)]
 			block = append(block, &builtTx{op: op, sender: m.Addr.String(), bz: w.ch.SignTx(m, tsstypes.NewMsgResetDE(m.Addr.String()))})
@@ -1310,6 +1327,9 @@ func (w *tssWorld) finish() {
 	}
 	if w.internalGov > 0 {
 		v.Class("internal-content-via-governance")
+	}
+	if w.idsSkipped {
+		v.Class("signing-ids-jumped")
 	}
 	if w.c.N > 20 {
 		v.Class("group-larger-than-20")
